@@ -1056,8 +1056,18 @@ pub fn gen_c16(rng: &mut Rng, d: &mut Dist, _idx: u64) -> Vec<String> {
     out.push(format!("APPENDRAW {} 0 0 0 {}", h(&t.name), hex(&raw_msg(0, 0, None, Some(b"good"), 0))));
     let corrupt = rng.chance(1, 2);
     if corrupt {
-        out.push(format!("APPENDRAW {} 0 1 1 {}", h(&t.name), hex(&raw_msg(1, 0, None, Some(b"bad-crc"), 1))));
-        bump(d, "log-with-bad-crc");
+        let bad = raw_msg(1, 0, None, Some(b"bad-crc"), 1);
+        // plain, or inside a compressed entry whose own checksum is right
+        match rng.below(3) {
+            0 => {
+                out.push(format!("APPENDRAW {} 0 1 1 {}", h(&t.name), hex(&bad)));
+                bump(d, "log-with-bad-crc");
+            }
+            k => {
+                out.push(format!("APPENDRAW {} 0 1 1 {}", h(&t.name), hex(&real_wrapper(rng, k as u8, 1, &bad))));
+                bump(d, "log-with-bad-crc-inside-compressed-entry");
+            }
+        }
     }
     let from_client = rng.chance(1, 2);
     bump(d, if from_client { "from-client" } else { "from-hosts" });
@@ -1903,6 +1913,43 @@ pub fn gen_c04(rng: &mut Rng, d: &mut Dist, idx: u64) -> Vec<String> {
         let p = 12 * 8 + rng.below(((w.len() - 12) * 8) as u64) as usize;
         w[p / 8] ^= 1 << (p % 8);
         out.push(format!("APPENDRAW {} 0 {} {} {}", h(&t.name), n, n, hex(&w)));
+    }
+    // a third of the cases fetch through a consumer: the setting comes from the builder (whatever the handed-in client
+    // says), from the handed-in client, or is the default
+    if rng.chance(1, 3) {
+        let on = rng.chance(2, 3);
+        bump(d, if on { "validation-on" } else { "validation-off" });
+        let mut opts = vec![format!("topic={}", h(&t.name)), "fallback=earliest".to_string()];
+        let from = match rng.below(4) {
+            0 => {
+                bump(d, "consumer-from-hosts");
+                if !on || rng.chance(1, 2) {
+                    opts.push(format!("crc={}", if on { 1 } else { 0 }));
+                }
+                format!("hosts={}", cl.bootstrap())
+            }
+            1 => {
+                bump(d, "consumer-from-client-inherits");
+                out.push(format!("OP client_new {}", cl.bootstrap()));
+                out.push(format!("OP c set crc {}", if on { 1 } else { 0 }));
+                out.push("OP c load_metadata_all".into());
+                "client".to_string()
+            }
+            _ => {
+                bump(d, "consumer-from-client-overrides");
+                out.push(format!("OP client_new {}", cl.bootstrap()));
+                if rng.chance(2, 3) {
+                    out.push(format!("OP c set crc {}", if on { 0 } else { 1 }));
+                }
+                out.push("OP c load_metadata_all".into());
+                opts.push(format!("crc={}", if on { 1 } else { 0 }));
+                "client".to_string()
+            }
+        };
+        rng.shuffle(&mut opts);
+        out.push(format!("OP consumer_create {} {}", from, opts.join(" ")));
+        out.push("OP poll".into());
+        return out;
     }
     out.push(format!("OP client_new {}", cl.bootstrap()));
     let on = rng.chance(2, 3);
